@@ -11,6 +11,7 @@ import (
 
 	"verif/harness/chain"
 	"verif/harness/h"
+	_ "verif/harness/warm"
 )
 
 var P = h.New("C01", "exploration",
